@@ -3,10 +3,12 @@ from lib import terms
 from props import dbcommon as D
 
 ID = 'C07'
-IMPORTS = ['Engine.Db', 'Engine.DbCursor', 'Engine.DbFacts', 'Engine.RunDb', 'Engine.DbProg', 'Engine.RunDbProg']
+IMPORTS = ['Engine.Db', 'Engine.DbCursor', 'Engine.DbFacts', 'Engine.DbOpen', 'Engine.RunDb', 'Engine.DbProg', 'Engine.RunDbProg']
 THEOREMS = ['C07_db_refines_list_spec', 'C07_db_refines_list_spec_from_init', 'C07_sim_op', 'C07_query_cursor_answers',
             'C07_match_binds_pattern', 'C07_ids_invariant', 'C07_nothing_raises', 'C07_compiled_updates_are_list_operations',
-            'C07_compiled_refines_list_spec', 'C07_compiled_run_is_cursor_history']
+            'C07_compiled_refines_list_spec', 'C07_compiled_run_is_cursor_history',
+            'C07_open_history_is_history', 'C07_open_assert_stores_value', 'C07_open_bindings_are_the_answer',
+            'C07_open_no_lost_update']
 RULE = ('histories of 3-30 operations (asserta/assertz through the builtin, through a goal held in a bound variable, '
         'through a compiled clause, and through YP.assert_fact; retract taken for k answers then closed or run to '
         'exhaustion; retractall; queries through YP.query, a compiled clause and call/1; clear) over 1-3 predicates of '
@@ -20,7 +22,15 @@ RULE = ('histories of 3-30 operations (asserta/assertz through the builtin, thro
         'compiled by the real compiler and run by 2-3 queries; compared with the model Engine/DbProg.v: all answers of '
         'every query, the stored facts of every predicate at the end, the number of facts stored during the run.  '
         'Non-trivial (b): a goal that enumerates a predicate is followed in the same body by an update of that predicate.  '
-        'Distinct by hash of the case.')
+        '(c) round 3: histories in which 1-2 queries / retracts are OPEN (suspended at an answer) and assert_fact / asserta / '
+        'assertz (API, builtin, compiled clause, goal in a bound variable), retractall and queries are issued with arguments '
+        'built from the VARIABLES OF THOSE OPEN CURSORS (bound at that moment to atoms, numbers, structures, fact variables), '
+        'interleaved with advancing, exhausting, closing and dropping (del) the cursors; compared with Engine/DbOpen.v (cursor '
+        'machine + bindings of each suspended cursor) and, model-free, with the value the harness reads itself before the call; '
+        'non-trivial: the stored fact differs from the term as written.  Histories with cursors finished in non-LIFO order (see '
+        'C14).  (d) generated programs as (b) in which database goals go through Python predicates registered with '
+        'register_function that call yp.assert_fact / yp.retract / yp.retractall with the argument objects they receive '
+        '(the clause variables).  Distinct by hash of the case.')
 TRUSTED_BASE = [
     'Coq 8.16.1 kernel (coqc); vm_compute for the in-Coq evaluation of the model on every case',
     'no axioms: all C07 theorems are closed under the global context',
@@ -47,6 +57,16 @@ def gen(rng, tier):
         cases.append(D.gen_history(rng, nops, inter))
     for i in range(200 if tier == 'quick' else 3000):
         cases.append(D.gen_dbprog(rng, loopy=0.35))
+    # round 3: API operations whose arguments are variables of OPEN cursors (bound at that moment only); cursors finished
+    # in non-LIFO order
+    for i in range(90 if tier == 'quick' else 2000):
+        cases.append(D.gen_open_history(rng))
+    for i in range(30 if tier == 'quick' else 500):
+        cases.append(D.gen_nonlifo(rng))
+    # database goals of compiled code issued through Python predicates (register_function) that call the API with the
+    # clause's own Variable objects
+    for i in range(60 if tier == 'quick' else 1200):
+        cases.append(D.decorate_py(rng, D.gen_dbprog(rng, loopy=0.5)))
     return cases
 
 def builtin_corpus():
@@ -68,6 +88,17 @@ def builtin_corpus():
     c(['assert', False, f('p', a, b), 'compiled'], ['assert', False, f('p', b, b), 'compiled'], ['assert', True, f('p', a), 'builtin'],
       ['start', 0, 'q', 'p', [v(0), v(0)], 'compiled'], ['next', 0], ['next', 0], ['clear'], ['qall', 'p', [v(0), v(1)]])
     c(['assert', False, f('p', v(0), f('f', v(0))), 'builtin'], ['start', 0, 'q', 'p', [a, v(0)], 'call'], ['next', 0], ['next', 0])
+    # operations inside a loop over the answers of an open query, with the loop's variables as arguments (bound at that
+    # moment only): what is stored is what they denote then, whatever the query does afterwards
+    for fin in (['next', 0], ['close', 0], ['drop', 0]):
+        c(['assert', False, f('p', a), 'api'], ['assert', False, f('p', f('f', b)), 'api'],
+          ['start', 0, 'q', 'p', [v(0)], 'api'], ['next', 0], ['open', 0, ['assert', False, f('q', v(0)), 'api']],
+          ['next', 0], ['open', 0, ['assert', False, f('q', f('who', v(0))), 'api']], ['open', 0, ['assert', True, f('q', v(0)), 'builtin']],
+          fin, ['qall', 'q', [v(0)]], ['start', 1, 'r', f('q', f('who', v(0))), 'builtin'], ['next', 1], ['next', 1])
+    c(['assert', False, f('p', a, b), 'api'], ['assert', False, f('p', b, v(0)), 'api'], ['assert', False, f('q', b), 'api'],
+      ['start', 0, 'r', f('p', v(0), v(1)), 'builtin'], ['next', 0], ['open', 0, ['assert', False, f('q', v(1)), 'compiled']],
+      ['open', 0, ['qall', 'q', [v(1)]]], ['open', 0, ['retractall', f('q', v(0)), 'builtin']], ['next', 0],
+      ['open', 0, ['assert', False, f('flag', v(1), f('f', v(0))), 'boundvar']], ['next', 0], ['open', 0, ['assert', False, f('q', v(1)), 'api']])
     # term objects built before a clear() are reused after it; [] in its spellings
     nil = ['a', '[]']
     for pol in [{'fact': 'held', 'pat': 'table', 'nil_fact': 'atom', 'nil_pat': 'ATOM_NIL'},
@@ -106,7 +137,15 @@ def nontrivial(case, io):
     patvar = False
     long_list = any(len(l) >= 2 for o in io if len(o) == 2 and isinstance(o[1], list) for l in o[1])
     kind = {}
+    opened = False
     for e, o in zip(case['events'], io):
+        if e[0] == 'open' and e[2][0] == 'assert' and len(o) == 2 and len(o[0]) == 2 and o[0][0] == 'ok':
+            # an assert over the variables of an open cursor stored something that differs from the term as written
+            # (a variable was bound at that moment)
+            t = e[2][2]
+            written = D.canon_args([terms.term_obs(a) for a in (t[2] if t[0] == 'f' else [])])
+            if o[0][1][2] != written:
+                opened = True
         if e[0] == 'start':
             kind[e[1]] = e[2]
             t = e[3] if e[2] == 'r' else ['f', e[3], e[4]]
@@ -114,7 +153,7 @@ def nontrivial(case, io):
                 patvar = True
         if e[0] == 'next' and kind.get(e[1]) == 'r' and len(o) == 2 and o[0][0] == 'ans':
             ret_ans = True
-    return ret_ans and patvar and long_list
+    return opened or (ret_ans and patvar and long_list)
 
 def describe(case):
     if case.get('kind') == 'dbprog':
@@ -146,8 +185,14 @@ def distribution(cases, obs):
             e = o['end'] if isinstance(o, dict) else 'other'
             d['ended'][e] = d['ended'].get(e, 0) + 1
             continue
+        sh = c.get('shape', 'random')
+        d.setdefault('history_shapes', {})
+        d['history_shapes'][sh] = d['history_shapes'].get(sh, 0) + 1
         for e in c['events']:
             d['events'][e[0]] = d['events'].get(e[0], 0) + 1
+            if e[0] == 'open':
+                kk = 'open:' + e[2][0] + (':' + e[2][3] if e[2][0] == 'assert' else '')
+                d['events'][kk] = d['events'].get(kk, 0) + 1
             if e[0] in ('assert', 'start', 'retractall'):
                 d['via'][e[-1]] = d['via'].get(e[-1], 0) + 1
         b = str(len(c['events']) // 5 * 5)
